@@ -14,8 +14,9 @@ use serde_json::json;
 use std::collections::BTreeMap;
 use std::ops::Bound;
 
-pub const KEY_TYPES: [&str; 10] = [
+pub const KEY_TYPES: [&str; 12] = [
     "u64", "&[u8]", "&str", "i64", "u128", "[u8;16]", "(u64,u32)", "(u32,&str)", "Option<&str>", "[&str;2]",
+    "&[u8] (big)", "&str (big)",
 ];
 
 pub struct TDb {
@@ -353,6 +354,8 @@ macro_rules! by_key_type {
             (7, 0) => $f::<ColTupU32Str, ColBytes>($($args),*, Some(reserve_bytes::<ColTupU32Str>)),
             (8, 0) => $f::<ColOptStr, ColBytes>($($args),*, Some(reserve_bytes::<ColOptStr>)),
             (9, 0) => $f::<ColStrArr2, ColBytes>($($args),*, Some(reserve_bytes::<ColStrArr2>)),
+            (10, 0) => $f::<ColBytesBig, ColBytes>($($args),*, Some(reserve_bytes::<ColBytesBig>)),
+            (11, 0) => $f::<ColStrBig, ColBytes>($($args),*, Some(reserve_bytes::<ColStrBig>)),
             (0, _) => $f::<ColU64, ColU64>($($args),*, None),
             (1, _) => $f::<ColBytes, ColU64>($($args),*, None),
             (2, _) => $f::<ColStr, ColU64>($($args),*, None),
@@ -362,6 +365,8 @@ macro_rules! by_key_type {
             (6, _) => $f::<ColTupU64U32, ColU64>($($args),*, None),
             (7, _) => $f::<ColTupU32Str, ColU64>($($args),*, None),
             (8, _) => $f::<ColOptStr, ColU64>($($args),*, None),
+            (10, _) => $f::<ColBytesBig, ColU64>($($args),*, None),
+            (11, _) => $f::<ColStrBig, ColU64>($($args),*, None),
             _ => $f::<ColStrArr2, ColU64>($($args),*, None),
         }
     };
@@ -490,11 +495,11 @@ fn sweep_case<KC: KeyGen, VC: Col>(
 
 pub fn run(rep: &Report) {
     rep.set_rule(
-        "case = (operation-sequence seed, key type of 10, value type of 2, configuration of 8): a random sequence of insert/insert_reserve/get/get_mut/entry/remove/pop/range/first/last/len/retain(_in)/extract(_from)_if over 1-8 transactions with aborts, non-durable commits and reopen, every return value compared with a BTreeMap ordered by the key type, full forward+backward scan after every transaction, after commit and after reopen; the same sequence seed is run under several page/region/cache configurations against the same model (configuration independence); plus threshold sweeps that walk leaf sizes across page/3, page/2, page, 2*page, 3*page byte by byte. Every completed sync_data is decoded by the independent format decoder. distinct_nontrivial = distinct cases in which the decoder saw a tree of depth >= 2 or a multi-page leaf (i.e. splits / large values actually happened)",
+        "case = (operation-sequence seed, key type of 12 (ten built-in key types with keys up to ~150 bytes, plus &[u8] and &str with keys of 0..9000 bytes, i.e. larger than a page at every configured page size), value type of 2, configuration of 8): a random sequence of insert/insert_reserve/get/get_mut/entry/remove/pop/range/first/last/len/retain(_in)/extract(_from)_if over 1-8 transactions with aborts, non-durable commits and reopen, every return value compared with a BTreeMap ordered by the key type, full forward+backward scan after every transaction, after commit and after reopen; the same sequence seed is run under several page/region/cache configurations against the same model (configuration independence); plus threshold sweeps that walk leaf sizes across page/3, page/2, page, 2*page, 3*page byte by byte. Every completed sync_data is decoded by the independent format decoder. distinct_nontrivial = distinct cases in which the decoder saw a tree of depth >= 2 or a multi-page leaf (i.e. splits / large values actually happened)",
     );
-    rep.assume("value sizes stop at 5 pages; key spaces of 6..600 keys");
+    rep.assume("value sizes stop at 5 pages, key sizes at ~9 KB; key spaces of 6..600 keys");
     let (n_seq, n_sweep) = match rep.tier {
-        Tier::Quick => (24_000u64, 12_000u64),
+        Tier::Quick => (72_000u64, 30_000u64),
         Tier::Thorough => (900_000u64, 300_000u64),
     };
     let total = n_seq + n_sweep;
